@@ -142,24 +142,33 @@ Definition last_change_reloaded (l : list ev) : bool :=
     | x :: r => if is_reload x then go r true else if is_change x then go r false else go r seen
     end in go l false.
 
-Definition sync_verdict (rd bt ch p : bool) (t : task) (o : sobs) : Z :=
+Definition sync_verdict (rd bt ch p brk : bool) (t : task) (o : sobs) : Z :=
   let '(l, en, rd', bt', rep) := o in
   let held_after := negb rd' || bt' in
   let changed := ch || existsb is_change l in
-  if held_after && existsb (fun x => is_reload x || is_api x) l then 1
-  else if existsb is_failed_reload l && negb rep then 5
+  if held_after && negb brk && existsb (fun x => is_reload x || is_api x) l then 1
+  else if existsb is_failed_reload l && negb rep then
+         (if existsb (fun x => match x with EWrite FMain _ _ => true | _ => false end) l
+          then (if t_all_reports t then 5 else 0)      (* updateAllConfigs ran: reported unless there is nothing to report on *)
+          else if bt && negb bt' then 5
+          else if is_endp_task (t_kind t) then 6
+          else if t_reports t then 5 else 0)
   else if bt && negb bt' && changed && negb (last_change_reloaded l) then 2
   else if bt && negb bt' && negb (changed || p) && existsb is_reload l then
          (if existsb (fun x => match x with EWrite FMain _ _ => true | _ => false end) l then 4 else 3)
   else 0.
 
-Fixpoint sverdicts (rd bt ch p : bool) (ts : list task) (obs : list sobs) : list Z :=
+(* brk: a reload already happened inside the current held-back window (everything after it in
+   the same window is a consequence, reported once) *)
+Fixpoint sverdicts (rd bt ch p brk : bool) (ts : list task) (obs : list sobs) : list Z :=
   match ts, obs with
   | t :: ts', o :: obs' =>
       let '(l, en, rd', bt', rep) := o in
-      let v := sync_verdict rd bt ch p t o in
+      let v := sync_verdict rd bt ch p brk t o in
       let ch' := if bt' then (if bt then ch else false) || existsb is_change l else false in
-      v :: sverdicts rd' bt' ch' (pend_scan p l) ts' obs'
+      let held_after := negb rd' || bt' in
+      let brk' := held_after && (brk || (v =? 1)) in
+      v :: sverdicts rd' bt' ch' (pend_scan p l) brk' ts' obs'
   | _, _ => []
   end.
 
@@ -176,7 +185,7 @@ Definition scover (t : list ev) (xs : list sout) (c : ctl) : Z :=
 Definition ctl_case (id : Z) (pl : bool) (ts : list task) (rfail afail : list nat) (obs : list sobs) : list Z :=
   let e := {| plus := pl; ro := fails_at rfail; ao := fails_at afail |} in
   let ag := sagree_from e ctl_init ts obs 0 in
-  let vs := sverdicts false false false false ts obs in
+  let vs := sverdicts false false false false false ts obs in
   let '(c, xs) := run_sync e ctl_init ts in
   let t := strace xs in
   [id; b2z (ag =? -1); b2z (forallb (Z.eqb 0) vs); b2z (existsb is_reload t); scover t xs c; ag] ++ vs.
